@@ -249,6 +249,7 @@ func c02Step(v *verifFS, ref *refFS, tag string, light bool) bool {
 			known = true
 		}
 	}
+	_ = mark
 	var err error
 	want := false
 	checkMode := false
@@ -261,9 +262,6 @@ func c02Step(v *verifFS, ref *refFS, tag string, light bool) bool {
 		err = v.FS.MkdirAll(name, 0o755)
 		want = ref.mkdirAll(name)
 	case 2:
-		if x := ref.find(name); x != nil && !x.dir && x.size > 0 {
-			mark("C02-otrunc-takes-effect-only-on-write", true)
-		}
 		h, e := v.FS.Create(name)
 		err = e
 		if e == nil {
